@@ -39,7 +39,7 @@ type C02Reply struct {
 	Late     bool   `json:"late,omitempty"`  // the server sends it just after the call's timeout
 }
 
-var c02Text = []string{"é", "日本語", "€", "#", "#12", "\n#5\n", "12345", "\n", " ", "<x/>", "abc", "0", "9#", "#\n", "data", "ünï", "😀", "&amp;", "]]", "<![CDATA[" + xmlDecl + "<a/>]] >]]>", "<?xml version=\"1.0\"?>", "x##y", "k ##\n", "a##\nb", "p ## q ##\n"}
+var c02Text = []string{"é", "日本語", "€", "#", "#12", "\n#5\n", "12345", "\n", " ", "<x/>", "abc", "0", "9#", "#\n", "data", "ünï", "😀", "&amp;", "]]", "<![CDATA[" + xmlDecl + "<a/>]] >]]>", "<?xml version=\"1.0\"?>", "x##y", "k ##\n", "a##\nb", "p ## q ##\n", "<out-rpc-errors>3</out-rpc-errors>", "<in-bad-rpc-error/>", "<stats:dropped-rpc-errors xmlns:stats=\"urn:x\">0</stats:dropped-rpc-errors>", "rpc-error", "&lt;rpc-error&gt;"}
 
 // c02Risky are the pieces that put "##" into a payload: wherever that pair ends up at the start
 // of a line of the raw stream (its own line, or right after a chunk header) the read loop's
